@@ -480,10 +480,17 @@ struct C13 : World {
   // ASPECT (PROG_INFO) announcement and kept the type in their mask.  Without such a witness a fresh announcement is
   // legitimate (accepted, not demanded).
   bool asp_wit[NSLOT] = {false, false, false, false}, pi_wit[NSLOT] = {false, false, false, false};
+  // "announcements are faithful", read as bounded liveness: what a client that has listened to ASPECT events without
+  // interruption believes (the last ASPECT event, revoking blank events included; the documented default - full format
+  // 4:3, nothing known - before the first) must come to equal the transmitted WSS word.  view_wit: slots registered for
+  // ASPECT ever since the view was last established; wss_live: identical receptions in a row since anything happened
+  // that makes the decoder start counting afresh (station change, assumed switch, timestamp gap, handler change).
+  bool view_wit[NSLOT] = {false, false, false, false}; vbi_aspect_ratio view; int wss_live = 0;
+  static constexpr int WSS_ANNOUNCE_BY = 6;   // "several identical repeats": the decoder documents no number (it uses 4 receptions); deliberately loose
   bool pi_known = false; vbi_aspect_ratio last_pi;
   // a call letter packet that was in transmission when the decoder reset itself for a station change may or may
   // not be delivered (partial packets of the old station are legitimately discarded): both values are accepted
-  bool call_open_uncertain = false, have_call_alt = false; std::string last_call_alt;
+  bool call_open_uncertain = false; std::set<std::string> call_alts;   // call letters the decoder may hold instead of last_call (call letter packets lost in a decoder reset; several in a row are possible)
   bool xds_dirty = false;  // a name or call letter packet differed from its predecessor since the last NETWORK_ID
   int stable_names = 0;    // name packets received in a row unchanged since the name or the call letters last changed
   // statistics
@@ -497,6 +504,9 @@ struct C13 : World {
   static void h3(vbi_event* ev, void*) { on_event(3, ev); }
   static vbi_event_handler slot_fn(int s) { static const vbi_event_handler f[NSLOT] = {h0, h1, h2, h3}; return f[s]; }
   static const unsigned MANDATORY = VBI_EVENT_NETWORK | VBI_EVENT_NETWORK_ID | VBI_EVENT_TTX_PAGE;
+  // knob net_churn (never generated; set by hand-written replay files only): slot 0 keeps NETWORK | TTX_PAGE, so that
+  // NETWORK_ID can be enabled afresh while a NETWORK handler stays registered (see the report on vbi_event_enable())
+  unsigned mandatory = MANDATORY;
   static unsigned bits_to_mask(int64_t b) {
     static const unsigned t[7] = {VBI_EVENT_NETWORK, VBI_EVENT_NETWORK_ID, VBI_EVENT_PROG_ID, VBI_EVENT_LOCAL_TIME, VBI_EVENT_ASPECT, VBI_EVENT_PROG_INFO, VBI_EVENT_TTX_PAGE};
     unsigned m = 0; for (int i = 0; i < 7; i++) if (llabs(b) >> i & 1) m |= t[i];
@@ -510,7 +520,7 @@ struct C13 : World {
     flush();  // between frames
     int slot = (int)(llabs(op.arg(0)) % NSLOT);
     unsigned m = bits_to_mask(op.arg(1) % 128);
-    if (slot == 0) m |= MANDATORY;  // the model's view of the decoder's station must not be interrupted
+    if (slot == 0) m |= mandatory;  // the model's view of the decoder's station must not be interrupted
     bool old_api = llabs(op.arg(2)) & 1;
     ctx->log("handler slot %d mask %x -> %x (%s)", slot, hmask[slot], m, old_api ? "add/remove" : "register/unregister");
     budget_begin("vbi_event_handler_register", 1000000);
@@ -526,9 +536,12 @@ struct C13 : World {
     for (int s = 0; s < NSLOT; s++) { before |= hmask[s]; after |= (s == slot ? m : hmask[s]); }
     if ((before & both) && (before & both) != both && (after & both) == both) ctx->count("handler_adds_other_proginfo_event");
     if (!(before & both) && (after & both)) ctx->count("handler_proginfo_events_enabled_afresh");
+    if (hmask[slot] != m) ctx->count("fault_handler_change");
     hmask[slot] = m;
     if (!(m & VBI_EVENT_ASPECT)) asp_wit[slot] = false;
     if (!(m & VBI_EVENT_PROG_INFO)) pi_wit[slot] = false;
+    if (!(m & VBI_EVENT_ASPECT)) view_wit[slot] = false;
+    wss_live = 0;
   }
   static void on_event(int slot, vbi_event* ev) {
     HarnessScope hs;
@@ -603,7 +616,8 @@ struct C13 : World {
         break;
       }
       case L_WSS:
-        if (wss_have && wss_last == L.word) wss_streak++; else wss_streak = 1;
+        if (wss_have && wss_last == L.word) { wss_streak++; wss_live++; } else { wss_streak = 1; wss_live = 1; }
+        if (relaxed) wss_live = 0;
         wss_have = true; wss_last = L.word;
         break;
       case L_XDS: {
@@ -617,9 +631,13 @@ struct C13 : World {
           ctx->log("ref name '%s' streak %d", s.c_str(), name_streak);
         } else if (key == 2 * 256 + 2) {
           // a change against what the decoder may hold (it may have lost the previous packet) permits a re-announcement
-          if (!have_call || last_call != strfu(bytes) || (have_call_alt && last_call_alt != strfu(bytes))) { xds_dirty = true; stable_names = 0; }
-          if (call_open_uncertain) { have_call_alt = true; last_call_alt = have_call ? last_call : std::string(); ctx->count("xds_call_packet_across_reset"); }
-          else have_call_alt = false;
+          bool alt_differs = false;
+          for (auto& a : call_alts) if (a != strfu(bytes)) alt_differs = true;
+          if (!have_call || last_call != strfu(bytes) || alt_differs) { xds_dirty = true; stable_names = 0; }
+          // a packet that was open during a decoder reset may be lost: what the decoder held before stays possible
+          // (and what it possibly held before that: two such packets in a row were seen, found by seed 8)
+          if (call_open_uncertain) { call_alts.insert(have_call ? last_call : std::string()); ctx->count("xds_call_packet_across_reset"); }
+          else call_alts.clear();
           call_open_uncertain = false;
           have_call = true; last_call = strfu(bytes);
           ctx->log("ref call '%s'", last_call.c_str());
@@ -661,13 +679,14 @@ struct C13 : World {
     relaxed = false;
     for (int k = 0; k < 3; k++) if (k != keep_carrier) blanked[k] = true;
     ctx->count(how);
+    if (keep_carrier >= 0) ctx->count("fault_retune");  // station change together with dropped frames, announced
     ctx->log("suspicion resolved: %s", how);
   }
   // the assumed switch was executed: blank NETWORK event not raised by an identifier reception
   void assumed_switch_executed() {
     net_epoch++;
     any_net = true; last_net_nuid = 0; last_net_name.clear(); last_net_call.clear();
-    aspect_known = false; pi_known = false;
+    aspect_known = false; pi_known = false; wss_live = 0;
     for (int k = 0; k < 3; k++) blanked[k] = true;
     dirty = true;
     // the station is no longer identified: the statement is silent about the cache (but a later change between
@@ -677,7 +696,7 @@ struct C13 : World {
     ctx->count("gap_reset_network");
   }
   void network_changed(bool from_identified, bool to_identified) {
-    net_epoch++; legit_net++;
+    net_epoch++; legit_net++; wss_live = 0;
     aspect_known = false;  // the reset may announce the aspect again (vbi_channel_switched documentation: "blank events ... revoking")
     pi_known = false;
     if (from_identified && to_identified) { pending_drop = true; ctx->count("station_switch_identified"); }
@@ -751,7 +770,7 @@ struct C13 : World {
         case VBI_EVENT_ASPECT:
           // only the revoking blank event of a channel switch may come from an identification line
           if (!asp_blank(e.asp)) { ctx->fail("oracle:c13-aspect-spurious", "ASPECT %d-%d raised by a %s line", e.asp.first_line, e.asp.last_line, kind_name[c]); return; }
-          saw_blank_aspect = true; ctx->count("aspect_blank");
+          saw_blank_aspect = true; ctx->count("aspect_blank"); set_view(e.asp);
           break;
         case VBI_EVENT_LOCAL_TIME:
           if (c != C_8301) { ctx->fail("oracle:c13-event-spurious", "LOCAL_TIME raised by a %s line", kind_name[c]); return; }
@@ -816,7 +835,7 @@ struct C13 : World {
         // been registered for ASPECT ever since (whatever other handlers came and went)
         if (!relaxed && aspect_known && any_wit(asp_wit) && asp_same(e.asp, last_aspect)) { ctx->fail("oracle:c13-aspect-repeat", "ASPECT announced again although unchanged (WSS word %04x)", L.word); return; }
         if (aspect_known && !any_wit(asp_wit) && asp_same(e.asp, last_aspect)) ctx->count("aspect_fresh_announcement_without_witness");
-        last_aspect = e.asp; aspect_known = true; saw_aspect = true;
+        last_aspect = e.asp; aspect_known = true; saw_aspect = true; set_view(e.asp);
         for (int k = 0; k < NSLOT; k++) asp_wit[k] = (hmask[k] & VBI_EVENT_ASPECT) != 0;
         ctx->count("aspect_events");
       } else if (e.type == VBI_EVENT_PROG_INFO) {
@@ -832,6 +851,22 @@ struct C13 : World {
         for (int k = 0; k < NSLOT; k++) pi_wit[k] = (hmask[k] & VBI_EVENT_PROG_INFO) != 0;
       } else { ctx->fail("oracle:c13-event-spurious", "event %d raised by a WSS line", e.type); return; }
     }
+    // the announcement must come: the word has valid parity, was received WSS_ANNOUNCE_BY times in a row while nothing made
+    // the decoder start afresh, somebody has listened all the time, and what he was told last is not what is transmitted
+    if (!ctx->failed && !relaxed && wss_live >= WSS_ANNOUNCE_BY && wss_parity_ok(L.word) && any_wit(view_wit)) {
+      ctx->count("aspect_liveness_checks");
+      if (!aspect_matches(L.word, view)) {
+        ctx->fail("oracle:c13-aspect-never", "WSS word %04x received %d times in a row with valid parity, but the last the ASPECT client was told is %d-%d ratio %.3f film %d subt %d",
+                  L.word, wss_live, view.first_line, view.last_line, view.ratio, view.film_mode, (int)view.open_subtitles);
+        return;
+      }
+    }
+  }
+  void set_view(const vbi_aspect_ratio& a) { view = a; for (int k = 0; k < NSLOT; k++) view_wit[k] = (hmask[k] & VBI_EVENT_ASPECT) != 0; }
+  bool aspect_matches(int word, const vbi_aspect_ratio& v) {
+    Aspect a = wss_aspect(word);
+    bool ratio_ok = a.anamorphic ? (v.ratio != 1.0 && v.ratio > 0.5 && v.ratio < 2.0) : v.ratio == 1.0;
+    return aspect_lines_ok(a.fmt, v.first_line, v.last_line) && ratio_ok && !!v.film_mode == !!a.film && (int)v.open_subtitles == a.subt;
   }
 
   void eval_xds_line(const Line& L, std::vector<Ev>& evs) {
@@ -849,7 +884,7 @@ struct C13 : World {
         return;
       }
       std::string nm = (const char*)e.net.name, cl = (const char*)e.net.call;
-      bool call_ok = cl == (have_call ? last_call : std::string()) || (have_call_alt && cl == last_call_alt);
+      bool call_ok = cl == (have_call ? last_call : std::string()) || call_alts.count(cl) > 0;
       if (nm != last_name || !call_ok) {
         ctx->fail("oracle:c13-network-fidelity", "%s name '%s' call '%s', most recent valid packets: name '%s' call '%s'", what, nm.c_str(), cl.c_str(), last_name.c_str(), have_call ? last_call.c_str() : "");
         return;
@@ -878,7 +913,7 @@ struct C13 : World {
     // unchanged call letters - a station changing its affiliation, or a station without call letters after one with -
     // is not decided: with or without NETWORK event.)  Not demanded while a call letter packet may have been lost in a
     // decoder reset.
-    if (!ctx->failed && !relaxed && L.name_delivered && any_net && stable_names >= 3 && !have_call_alt && !call_open_uncertain) {
+    if (!ctx->failed && !relaxed && L.name_delivered && any_net && stable_names >= 3 && call_alts.empty() && !call_open_uncertain) {
       bool differs = have_call ? last_call != last_net_call : last_name != last_net_name;
       if (differs) {
         ctx->fail("oracle:c13-change-no-network", "XDS station '%s' / '%s' received %d times in a row unchanged, no NETWORK event: the last one announced '%s' / '%s'",
@@ -934,7 +969,7 @@ struct C13 : World {
         // (a): the decoder has acted on its suspicion, a mode 1 run is strict again.  (XDS runs have no gaps.)
         if (mode == 1) resolve_suspicion(-1, "suspicion_resolved_by_assumed_switch");
       } else if (e.type == VBI_EVENT_ASPECT && asp_blank(e.asp) && (relaxed || pre_switch)) {
-        ctx->count("aspect_blank");
+        ctx->count("aspect_blank"); set_view(e.asp);
       } else if (e.type == VBI_EVENT_NETWORK) {
         ctx->fail("oracle:c13-network-spurious", "NETWORK event (nuid %u) raised by no reception: the station %s and no frames were dropped since", e.net.nuid,
                   legit_net ? "did not change since the last NETWORK event" : "was never announced");
@@ -1186,11 +1221,15 @@ struct C13 : World {
     wss_have = false; wss_last = 0; wss_streak = 0; aspect_known = false; memset((void*)&last_aspect, 0, sizeof last_aspect);
     vps_pids.clear(); must_pages.clear(); maybe_pages.clear(); pending_drop = false; net_epoch = 0;
     xref = XdsRef(); have_name = have_call = false; last_name.clear(); last_call.clear(); name_streak = 0; xds_last_sender = -1;
-    call_open_uncertain = have_call_alt = false; last_call_alt.clear(); xds_dirty = false; stable_names = 0;
+    call_open_uncertain = false; call_alts.clear(); xds_dirty = false; stable_names = 0;
     receptions = legit_net = quiet_receptions = 0;
     for (int k = 0; k < NSLOT; k++) { hmask[k] = 0; asp_wit[k] = pi_wit[k] = false; }
-    hmask[0] = bits_to_mask(plan.knob("h0_mask", 0x7F) % 128) | MANDATORY;  // absent: every event type of the property (older plans)
+    mandatory = plan.knob("net_churn") ? (unsigned)(VBI_EVENT_NETWORK | VBI_EVENT_TTX_PAGE) : MANDATORY;
+    hmask[0] = bits_to_mask(plan.knob("h0_mask", 0x7F) % 128) | mandatory;  // absent: every event type of the property (older plans)
     pi_known = false; memset((void*)&last_pi, 0, sizeof last_pi);
+    // before the first announcement: vbi_reset_prog_info()'s documented default (625 line system: full format 4:3, lines 23-310)
+    memset((void*)&view, 0, sizeof view); view.first_line = 23; view.last_line = 310; view.ratio = 1.0; view.film_mode = 0; view.open_subtitles = VBI_SUBT_UNKNOWN;
+    wss_live = 0; for (int k = 0; k < NSLOT; k++) view_wit[k] = (hmask[k] & VBI_EVENT_ASPECT) != 0;
     Sched sched(c, (uint64_t)plan.knob("sched_seed", (int64_t)plan.seed), (Policy)(llabs(plan.knob("policy")) % 3), (int)plan.knob("pparam"));
     { SutScope ss;
       dec = vbi_decoder_new();
